@@ -7,6 +7,7 @@ From Coq Require Import List NArith.
 From Goit Require Import Bytes Tree Index IndexFacts.
 From Goit Require Import Obj World Repo ExactFacts.
 From Goit Require Import Bridge.
+From Goit Require Import Inv BranchFacts SnapshotFacts AddressFacts AddTotalFacts.
 Import ListNotations.
 
 (* T0 (tie to the source): every regexp literal of the current Go source denotes
@@ -128,6 +129,48 @@ Theorem C04_rm_unknown_refused : forall w args,
   runs (cmd_rm args) w Err [] /\ run_m (cmd_rm args) w = (Err, w, []).
 Proof. exact cmd_rm_refuses. Qed.
 
+(* ---------- Part 3: total specifications for argument lists, on every reachable repository ---------- *)
+(* add <paths>: for ANY non-empty list of pairwise non-overlapping arguments
+   each of which exists on disk, is tracked, or is a tracked directory, on a
+   consistent work tree: the command SUCCEEDS; every selected, not excluded file
+   is staged with the id of its current bytes and (no collision flagged) that
+   blob is stored with exactly those bytes; every named tracked path that no
+   longer exists (or lies beneath a named tracked directory that no longer
+   exists) is unstaged; every other path keeps its staged value; the work tree,
+   refs, HEAD, logs, configs are untouched; stored objects are kept; the staging
+   area stays canonical *)
+Theorem C04_add_total : forall e c w args,
+  Reachable w -> w_coll w = false -> SmallStore (w_objs w) -> w_inited w = true -> ctx_of w = Some c ->
+  ex_wt_consistent w -> args <> [] -> (forall a, In a args -> add_valid w a = true) -> no_overlap args ->
+  exists w' tr, step (ACmd e (CAdd args)) w = (w', OOk [], tr) /\ w' = apply_effects tr w /\
+    Forall add_eff tr /\ add_result w (x_pats c) args w'.
+Proof. exact add_total. Qed.
+
+(* re-adding unchanged files changes nothing: same world, empty trace (repeated
+   arguments allowed) *)
+Theorem C04_re_add_unchanged_changes_nothing : forall e c w args,
+  Reachable w -> w_coll w = false -> SmallStore (w_objs w) -> w_inited w = true -> ctx_of w = Some c ->
+  args <> [] -> (forall a, In a args -> add_valid w a = true) ->
+  (forall q data, add_stages w (x_pats c) args q data -> staged w q = Some (blob_id data)) ->
+  (forall q, ~ add_unstages w (x_pats c) args q) ->
+  step (ACmd e (CAdd args)) w = (w, OOk [], []).
+Proof. exact re_add_unchanged_changes_nothing. Qed.
+
+(* rm <paths>: exactly the selected tracked paths leave the staging area and
+   the work tree; no untracked file is touched; objects, refs, HEAD, logs,
+   configs untouched (each selected path a file or absent: a tracked path that
+   has become a non-empty directory makes rm fail, witness W-3) *)
+Theorem C04_rm_total : forall e c w args,
+  Reachable w -> w_coll w = false -> SmallStore (w_objs w) -> w_inited w = true -> ctx_of w = Some c ->
+  (forall a, In a args -> rm_valid w a = true) -> no_overlap args ->
+  (forall q, rm_selected w args q -> wt_stat w q = SFile \/ wt_stat w q = SNone) ->
+  exists w' tr, step (ACmd e (CRm args)) w = (w', OOk [], tr) /\ w' = apply_effects tr w /\
+    Forall (fun ef => rm_eff ef /\ (forall q, ef = ERemovePath q -> rm_selected w args q)) tr /\
+    rm_many_post w (rm_selected w args) w' /\
+    (forall q, staged w q = None -> file w' q = file w q) /\
+    (forall d, ~ rm_selected w args d -> set_mem (w_dirs w') d = set_mem (w_dirs w) d).
+Proof. exact rm_total. Qed.
+
 Print Assumptions C04_stage_exact.
 Print Assumptions C04_restage_noop.
 Print Assumptions C04_unstage_exact.
@@ -143,3 +186,6 @@ Print Assumptions C04_rm_dir_spec.
 Print Assumptions C04_rm_frame.
 Print Assumptions C04_rm_unknown_refused.
 Print Assumptions C04_source_patterns_are_the_models.
+Print Assumptions C04_add_total.
+Print Assumptions C04_re_add_unchanged_changes_nothing.
+Print Assumptions C04_rm_total.
